@@ -204,11 +204,11 @@ let gstate_of (o : obs) : gstate option =
   match o.graph with
   | None -> None
   | Some g ->
-    let sizes = List.rev_map (fun (en : entry) -> en.es) o.st.ents in          (* MRU first, like the nodes *)
+    let sizes = List.rev_map (fun (en : entry) -> (en.es, PLive (en.ek, en.ev))) o.st.ents in          (* MRU first, like the nodes *)
     if List.length sizes <> List.length g.g_nodes then None else
     let tbl = Hashtbl.create 64 in
     Hashtbl.replace tbl (s_of_n g.g_seal) { nprev = g.g_seal_prev; nnext = g.g_seal_next; nsize = N0; npay = PSeal };
-    List.iter2 (fun (nd : onode) sz -> Hashtbl.replace tbl (s_of_n nd.oaddr) { nprev = nd.oprev; nnext = nd.onext; nsize = sz; npay = dummy_pay }) g.g_nodes sizes;
+    List.iter2 (fun (nd : onode) (sz, pay) -> Hashtbl.replace tbl (s_of_n nd.oaddr) { nprev = nd.oprev; nnext = nd.onext; nsize = sz; npay = pay }) g.g_nodes sizes;
     Some { gh = (fun a -> Hashtbl.find_opt tbl (s_of_n a)); gseal = g.g_seal; glist = List.map (fun (nd : onode) -> nd.oaddr) g.g_nodes }
 let links_string (l : (((addr * addr option) * addr option) * n option) list) =
   String.concat "," (List.map (fun (((a, p), nx), sz) ->
@@ -467,44 +467,23 @@ let () =
                  (match (if abstract_ok then gstate_of pre else None) with
                   | None -> ()
                   | Some g0 ->
-                    let addr_e (en : entry) = addr_of pre en.ek.ktok in
-                    let find_q q = List.find_opt (fun (en : entry) -> Z.equal (z_of_n en.ek.kid) (z_of_n q)) pre.st.ents in
-                    let rm_list g (l : entry list) = List.fold_left (fun g en -> g >>= fun g -> addr_e en >>= fun a -> b_remove g a) (Some g) l in
-                    let survivors_moved g =
-                      (* every surviving entry moves to the address observed afterwards, in the old table's iteration order *)
-                      let pairs = List.filter_map (fun (kt, a) -> match List.assoc_opt kt post.addr_of_ktok with
-                          | Some a' when a' <> a -> Some (n a, n a') | _ -> None) pre.addr_of_ktok in
-                      b_moves g pairs in
-                    let rebuilt_obs = List.exists (fun (kt, a) -> match List.assoc_opt kt post.addr_of_ktok with Some a' -> a' <> a | None -> false) pre.addr_of_ktok in
-                    let expected : gstate option = (match p, o with
-                        | (Get q | GetEntry q | Touch q), _ -> (match find_q q with Some en -> addr_e en >>= b_touch g0 | None -> Some g0)
-                        | GetLru, _ -> (match pre.st.ents with en :: _ -> addr_e en >>= b_touch g0 | [] -> Some g0)
-                        | (Remove q | RemoveEntry q), _ -> (match find_q q with Some en -> addr_e en >>= b_remove g0 | None -> Some g0)
-                        | RemoveLru, _ -> (match pre.st.ents with en :: _ -> addr_e en >>= b_remove g0 | [] -> Some g0)
-                        | RemoveMru, _ -> (match List.rev pre.st.ents with en :: _ -> addr_e en >>= b_remove g0 | [] -> Some g0)
-                        | Insert (k, _), OInsOk _ ->
-                          let g1 = (match find_q k.kid with Some en -> addr_e en >>= b_remove g0 | None -> Some g0) in
-                          let g2 = g1 >>= fun g -> rm_list g evs.e_evicted in
-                          let g3 = if rebuilt_obs then g2 >>= survivors_moved else g2 in
-                          (match List.rev s'.ents with
-                           | (ne : entry) :: _ -> g3 >>= fun g -> addr_of post k.ktok >>= fun a -> b_insert_new g a ne.es dummy_pay
-                           | [] -> None)
-                        | TryInsert (k, _), OTryOk ->
-                          let g3 = if rebuilt_obs then survivors_moved g0 else Some g0 in
-                          (match List.rev s'.ents with
-                           | (ne : entry) :: _ -> g3 >>= fun g -> addr_of post k.ktok >>= fun a -> b_insert_new g a ne.es dummy_pay
-                           | [] -> None)
-                        | Mutate (q, _, _), OMutTooLarge _ -> (match find_q q with Some en -> addr_e en >>= b_remove g0 | None -> Some g0)
-                        | Mutate (q, _, _), OMutOk ->
-                          (match find_q q, List.rev s'.ents with
-                           | Some en, (ne : entry) :: _ ->
-                             addr_e en >>= fun a -> b_touch g0 a >>= fun g -> rm_list g evs.e_evicted >>= fun g -> b_set_size g a ne.es
-                           | _ -> None)
-                        | SetMaxSize _, _ -> rm_list g0 evs.e_evicted
-                        | Retain f, _ -> rm_list g0 (List.filter (fun (en : entry) -> not (f en.ek en.ev)) pre.st.ents)
-                        | (Clear | DrainOp _), _ -> b_reset g0
-                        | (Reserve _ | TryReserve _ | ShrinkTo _ | ShrinkToFit), _ -> if rebuilt_obs then survivors_moved g0 else Some g0
-                        | _, _ -> Some g0) in
+                    (* the whole public operation at pointer level (B/StepB.v, proved to refine stepA: B/RefineB.v), run from the
+                       observed graph with the bucket choices hashbrown made: where the new entry landed, where a rebuild moved each bucket *)
+                    let moved = List.filter_map (fun (kt, a) -> match List.assoc_opt kt post.addr_of_ktok with
+                        | Some a' when a' <> a -> Some (n a, n a') | _ -> None) pre.addr_of_ktok in
+                    let new_addr = (match p with
+                        | Insert (k, _) | TryInsert (k, _) -> (match addr_of post k.ktok with Some a -> a | None -> N0)
+                        | _ -> N0) in
+                    let oB = { ob = { o_tomb = n_of_int (fst chosen_c); o_reuse = snd chosen_c; o_alloc = alloc_ok }; ob_addr = new_addr; ob_moves = moved } in
+                    let b0 = { bg = g0; bcur = pre.st.cur; bmax = pre.st.maxs; btb = pre.st.tb } in
+                    let rb = stepB !e !vsz b0 p oB in
+                    (match rb with
+                     | Some ((b', o'), evs') ->
+                       (* the refinement theorem, observed: same result, same events, same abstract state as Layer A *)
+                       let agree = (o' = o) && (evs'.e_dropped = evs.e_dropped) && (evs'.e_evicted = evs.e_evicted) && (absB b' = s') in
+                       chkw "brefine" agree
+                     | None -> ());
+                    let expected : gstate option = (match rb with Some ((b', _), _) -> Some b'.bg | None -> None) in
                     (match expected with
                      | None -> chkw "bsim" false; Buffer.add_string detail "  layer B: the pointer-level operation FAULTS on the observed graph (access to a freed / unallocated node)\n"
                      | Some g' ->
